@@ -43,7 +43,7 @@ META = {
     'decided': ['D1 constraint coverage', 'D2 domain agreement',
                 'D3 separator-aware hierarchical tests / argument-path rule',
                 'D4 missing arguments never match', 'D5 isolation and '
-                'removal (client router; daemon RemoveMatch accounting)', 'D6 rule text agrees with the local rule',
+                'removal (client router; daemon RemoveMatch accounting); matching does not modify the rule', 'D6 rule text agrees with the local rule',
                 'D7 proxy subscription guarded by the signature'],
     'undecided': ['matcher == reference matcher on generated pairs',
                   'add/remove histories'],
@@ -515,6 +515,19 @@ def isolation(ctx, match, mpaths):
             if e[0] == 'call' and kind(e[1][2]) == 'attr' and \
                     e[1][2][1] == table and e[1][2][2] == 'pop':
                 okd = True
+    # matching is a pure test: a rule that rewrites its own constraints
+    # while it looks at one message answers differently for the next
+    writes = sorted({e[2] for p in mpaths for e in iter_events(p.trace)
+                     if e[0] == 'setattr' and e[1] == ('param', 'self')} |
+                    {term_str(e[1])[:40] for p in mpaths
+                     for e in iter_events(p.trace)
+                     if e[0] in ('setsub', 'delsub') and contains(
+                         e[1], lambda x: x == ('param', 'self'))})
+    ctx.ob('C12.D5', match.qualname, 'match-does-not-modify-the-rule',
+           not writes, 'Rule.match writes %s: whether a later signal '
+           'matches then depends on which signals were examined before '
+           '(order of delivery), not on the rule and the signal alone'
+           % writes)
     ctx.ob('C12.D5', dfi.qualname, 'removes-from-iterated-table', okd,
            'delMatch must remove the rule from the table routeMessage '
            'iterates')
